@@ -111,7 +111,7 @@ def tlc(module, cfg, *, workdir, workers=1, env=None, timeout=600, xmx="3g", xss
     if coverage:
         cmd += ["-coverage", "1"]
     if simulate:
-        cmd += ["-simulate", simulate]
+        cmd += ["-simulate", simulate, "-seed", os.environ.get("VERIF_SEED", "1"), "-depth", "12"]
     cmd += [module + ".tla"]
     e = dict(os.environ)
     e.pop("JAVA_TOOL_OPTIONS", None)
